@@ -159,31 +159,33 @@ def fs_hook(ev):
 
 from xarray.backends.locks import SerializableLock  # noqa: E402
 
+_orig_lock_methods = {}
 
-class SLock(SerializableLock):
-    """scheduler-aware lock (module level so that pickled trees keep working)"""
 
-    _vf = True
+def _sl_acquire(self, *a, **k):
+    s = CUR[0]
+    t = _tid()
+    if s is not None and t is not None and not s.free:
+        if not (COARSE[0] and s.try_acquire(t, self.token)):
+            s.yield_point(t, "lock", lock_token=self.token)
+    return _orig_lock_methods["acquire"](self, *a, **k)
 
-    def acquire(self, *a, **k):
-        s = CUR[0]
-        if s is not None and _tid() is not None:
-            if not (COARSE[0] and s.try_acquire(_tid(), self.token)):
-                s.yield_point(_tid(), "lock", lock_token=self.token)
-        return self.lock.acquire(*a, **k)
 
-    def release(self, *a, **k):
-        r = self.lock.release(*a, **k)
-        s = CUR[0]
-        if s is not None and _tid() is not None:
-            s.release(_tid(), self.token)
-        return r
+def _sl_release(self, *a, **k):
+    r = _orig_lock_methods["release"](self, *a, **k)
+    s = CUR[0]
+    t = _tid()
+    if s is not None and t is not None:
+        s.release(t, self.token)
+    return r
 
-    def __enter__(self):
-        self.acquire()
 
-    def __exit__(self, *a):
-        self.release()
+def _sl_enter(self):
+    self.acquire()
+
+
+def _sl_exit(self, *a):
+    self.release()
 
 
 class SchedLock:
@@ -255,11 +257,17 @@ def patch_threading_locks():
 
 
 def install_lock():
-    """replace the lock class used by ceos_alos2.xarray with the scheduler-aware subclass (harness side only)"""
-    import ceos_alos2.xarray as cx
-
-    cx.SerializableLock = SLock
-    return SLock
+    """make xarray's SerializableLock scheduler-aware *in place* (harness side only): acquisition becomes a yield point and a
+    thread waiting for a held token is not enabled.  Patching the class itself (not the name the package imported) keeps
+    working when the package imports the lock differently, and pickled trees keep referring to the real class."""
+    if not _orig_lock_methods:
+        _orig_lock_methods["acquire"] = SerializableLock.acquire
+        _orig_lock_methods["release"] = SerializableLock.release
+        SerializableLock.acquire = _sl_acquire
+        SerializableLock.release = _sl_release
+        SerializableLock.__enter__ = _sl_enter
+        SerializableLock.__exit__ = _sl_exit
+    return SerializableLock
 
 
 def run(choices, jobs, join_timeout=20, by_tid=False):
